@@ -33,7 +33,7 @@ var solvers = []solverSpec{
 	}, true},
 }
 
-var solverSem = make(chan struct{}, 14)
+var solverSem = make(chan struct{}, 16)
 
 func runOne(ctx context.Context, sp solverSpec, q string, ms int) SolveResult {
 	solverSem <- struct{}{}
@@ -45,6 +45,9 @@ func runOne(ctx context.Context, sp solverSpec, q string, ms int) SolveResult {
 	cctx, cancel := context.WithTimeout(ctx, time.Duration(ms+2000)*time.Millisecond)
 	defer cancel()
 	cmd := exec.CommandContext(cctx, a[0], a[1:]...)
+	if sp.all && !strings.Contains(q, "(set-logic") {
+		q = "(set-logic ALL)\n" + q
+	}
 	cmd.Stdin = strings.NewReader(q)
 	var out bytes.Buffer
 	cmd.Stdout = &out
@@ -62,6 +65,8 @@ func runOne(ctx context.Context, sp solverSpec, q string, ms int) SolveResult {
 		st = "sat"
 	case first == "unknown", first == "timeout":
 		st = "unknown"
+	case ctx.Err() != nil:
+		st = "cancelled"
 	case cctx.Err() != nil:
 		st = "timeout"
 	case strings.Contains(s, "interrupted by timeout") || strings.Contains(s, "timeout"):
@@ -70,7 +75,54 @@ func runOne(ctx context.Context, sp solverSpec, q string, ms int) SolveResult {
 	return SolveResult{Status: st, Solver: sp.name, Time: el, Output: s}
 }
 
-// Solve: a short first attempt with z3-new only, then a race of all three.
+type job struct {
+	sp     solverSpec
+	q      string
+	weak   bool // weakened query (absmul): only `unsat` is meaningful
+	suffix string
+}
+
+func race(jobs []job, timeoutMs int, tried *[]string) (SolveResult, bool) {
+	ctx, cancel := context.WithCancel(context.Background())
+	defer cancel()
+	ch := make(chan SolveResult, len(jobs))
+	var wg sync.WaitGroup
+	for _, j := range jobs {
+		j := j
+		wg.Add(1)
+		go func() {
+			defer wg.Done()
+			r := runOne(ctx, j.sp, j.q, timeoutMs)
+			r.Solver += j.suffix
+			if j.weak && r.Status == "sat" {
+				r.Status = "unknown"
+			}
+			ch <- r
+		}()
+	}
+	go func() { wg.Wait(); close(ch) }()
+	var last SolveResult
+	for r := range ch {
+		if r.Status == "cancelled" {
+			continue
+		}
+		*tried = append(*tried, fmt.Sprintf("%s:%s:%.2fs", r.Solver, r.Status, r.Time))
+		if r.Status == "unsat" || r.Status == "sat" {
+			cancel()
+			return r, true
+		}
+		if last.Status == "" || r.Status == "unknown" {
+			last = r
+		}
+	}
+	if last.Status == "" {
+		last.Status = "error"
+	}
+	return last, false
+}
+
+// Solve: a short first attempt (z3-new exact, plus z3-new/cvc5 on the multiplication-abstracted
+// query when there is one), then a race of all solvers on both encodings.
 func Solve(qPlain, qALL, qAbsMul string, timeoutMs int) SolveResult {
 	var tried []string
 	t0 := time.Now()
@@ -81,83 +133,31 @@ func Solve(qPlain, qALL, qAbsMul string, timeoutMs int) SolveResult {
 	if first < 500 {
 		first = 500
 	}
-	var am chan SolveResult
+	j1 := []job{{sp: solvers[0], q: qPlain}}
 	if qAbsMul != "" {
-		am = make(chan SolveResult, 1)
-		go func() {
-			r := runOne(context.Background(), solvers[0], qAbsMul, first)
-			r.Solver = "z3-new(absmul)"
-			am <- r
-		}()
+		j1 = append(j1, job{solvers[0], qAbsMul, true, "(absmul)"}, job{solvers[2], qAbsMul, true, "(absmul)"})
 	}
-	r := runOne(context.Background(), solvers[0], qPlain, first)
-	tried = append(tried, fmt.Sprintf("%s:%s:%.2fs", r.Solver, r.Status, r.Time))
-	if r.Status == "unsat" || r.Status == "sat" {
-		r.Tried = tried
-		return r
-	}
-	if am != nil {
-		ra := <-am
-		tried = append(tried, fmt.Sprintf("%s:%s:%.2fs", ra.Solver, ra.Status, ra.Time))
-		if ra.Status == "unsat" {
-			ra.Tried = tried
-			return ra
-		}
-	}
-	ctx, cancel := context.WithCancel(context.Background())
-	defer cancel()
-	ch := make(chan SolveResult, len(solvers)+1)
-	var wg sync.WaitGroup
-	if qAbsMul != "" {
-		wg.Add(1)
-		go func() {
-			defer wg.Done()
-			r := runOne(ctx, solvers[0], qAbsMul, timeoutMs)
-			r.Solver = "z3-new(absmul)"
-			if r.Status == "sat" {
-				r.Status = "unknown" // a model of the weakened query proves nothing
-			}
-			ch <- r
-		}()
-	}
-	for _, sp := range solvers {
-		sp := sp
-		wg.Add(1)
-		go func() {
-			defer wg.Done()
+	r, ok := race(j1, first, &tried)
+	if !ok {
+		var j2 []job
+		for _, sp := range solvers {
 			q := qPlain
 			if sp.all {
 				q = qALL
 			}
-			ch <- runOne(ctx, sp, q, timeoutMs)
-		}()
-	}
-	go func() { wg.Wait(); close(ch) }()
-	var last SolveResult
-	for r := range ch {
-		if r.Status == "cancelled" {
-			continue
+			j2 = append(j2, job{sp: sp, q: q})
+			if qAbsMul != "" {
+				j2 = append(j2, job{sp, qAbsMul, true, "(absmul)"})
+			}
 		}
-		tried = append(tried, fmt.Sprintf("%s:%s:%.2fs", r.Solver, r.Status, r.Time))
-		if r.Status == "unsat" || r.Status == "sat" {
-			cancel()
-			r.Tried = tried
-			r.Time = time.Since(t0).Seconds()
-			return r
-		}
-		if last.Status == "" || r.Status == "unknown" {
-			last = r
-		}
+		r, _ = race(j2, timeoutMs, &tried)
 	}
-	last.Tried = tried
-	last.Time = time.Since(t0).Seconds()
-	if last.Status == "" {
-		last.Status = "error"
-	}
-	return last
+	r.Tried = tried
+	r.Time = time.Since(t0).Seconds()
+	return r
 }
 
-// CrossCheck asks one specific other solver (thorough tier).
+// SolveWith asks one specific solver (cross-check in the thorough tier).
 func SolveWith(name string, qPlain, qALL string, timeoutMs int) SolveResult {
 	for _, sp := range solvers {
 		if sp.name == name {
